@@ -7,6 +7,7 @@ def genCfg : Cfg :=
   { gate := gateOfTable IpcHub.Gen.rtspGate,
     playAgainResponds := IpcHub.Gen.onPlayAgainResponds,
     playingNeedsOk := IpcHub.Gen.onPlayPlayingNeedsOk,
+    framesDropped := IpcHub.Gen.onPackGuard == "s.status != statusRecording => return nil",
     sidCarried := IpcHub.Gen.rtspNewResponseSets.contains ("FieldSession", "s.lsession") &&
       IpcHub.Gen.respIdentityTouched.isEmpty }
 
